@@ -9,6 +9,7 @@
 #include "algorithms/sequential/tbfalgorithmtsm.hpp"
 #include "core/tbftreetsm.hpp"
 #include "algorithms/periodic/tbfalgorithmperiodictoptree.hpp"
+#include "algorithms/periodic/tbfalgorithmperiodictoptreetsm.hpp"
 #include "kernels/counterkernels/tbfinteractioncounter.hpp"
 #include "common.hpp"
 #include "trace_kernel.hpp"
@@ -146,36 +147,58 @@ std::string run_exec_per(const Cmd& c){
     return out;
 }
 
+//   execpertsm d H B mode k stop Ns <nums> Nt <nums>     (target/source periodic sequence with the TSM top tree)
+template <long D>
+std::string run_exec_per_tsm(const Cmd& c){
+    using Conf = TbfSpacialConfiguration<double, D>;
+    using Space = TbfMortonSpaceIndex<D, Conf, true>;
+    using Tree = TbfTreeTsm<double, double, D, unsigned long, 1, TagVal, TagVal, Space>;
+    using Kernel = TraceKernel<double, Space>;
+    using Algo = TbfAlgorithmTsm<double, Kernel, Space>;
+    using Top = TopExposed<TbfAlgorithmPeriodicTopTreeTsm<double, Kernel, TagVal, TagVal, Space>>;
+    const long H = c.L(2), B = c.L(3), mode = c.L(4), k = c.L(5), stop = c.L(6);
+    size_t a = 7;
+    std::array<double, D> w, ctr; for(long j = 0 ; j < D ; ++j){ w[j] = 1; ctr[j] = 0.5; }
+    Conf conf(H, w, ctr);
+    const double scale = 16.0 * double(1L << (H-1));
+    const long Ns = c.L(a++);
+    std::vector<std::array<double, D>> ps(Ns);
+    for(long i = 0 ; i < Ns ; ++i) for(long j = 0 ; j < D ; ++j) ps[i][j] = double(c.L(a++)) / scale;
+    const long Nt = c.L(a++);
+    std::vector<std::array<double, D>> pt(Nt);
+    for(long i = 0 ; i < Nt ; ++i) for(long j = 0 ; j < D ; ++j) pt[i][j] = double(c.L(a++)) / scale;
+    Tree tree(conf, ps, pt, B, mode != 0);
+    tree.applyToAllCellsSource([](long level, auto&& h, auto&& m, auto&&){ if(m){ m->get().tagLevel1 = level + 1; m->get().tagIndex = h.spaceIndex; } });
+    tree.applyToAllCellsTarget([](long level, auto&& h, auto&&, auto&& l){ if(l){ l->get().tagLevel1 = level + 1; l->get().tagIndex = h.spaceIndex; } });
+    TraceSink sink; trace_sink() = &sink;
+    sink.shiftAware = true; sink.topK = k; sink.leafLevel = H - 1;
+    std::string out = dump_parts(H, [&](long l) -> const auto& { return tree.getCellGroupsAtLevelSource(l); }, tree.getParticleGroupsSource());
+    out += " || " + dump_parts(H, [&](long l) -> const auto& { return tree.getCellGroupsAtLevelTarget(l); }, tree.getParticleGroupsTarget());
+    std::string interval;
+    {
+        std::unique_ptr<Algo> algo(new Algo(conf, stop));
+        std::unique_ptr<Top> top(new Top(conf, k));
+        top->tag();
+        algo->execute(tree, TbfAlgorithmUtils::TbfBottomToTopStages);
+        sink.inTop = true; top->execute(tree); sink.inTop = false;
+        algo->execute(tree, TbfAlgorithmUtils::TbfTransferStages);
+        algo->execute(tree, TbfAlgorithmUtils::TbfTopToBottomStages);
+        auto iv = top->getRepetitionsIntervals();
+        interval = "I " + std::to_string(iv.first[0]) + " " + std::to_string(iv.second[0]) + " " + std::to_string(top->getNbRepetitionsPerDim());
+    }
+    out += " || " + join_trace(sink);
+    std::vector<std::pair<long, unsigned long>> r;
+    tree.applyToAllLeavesTarget([&](auto&& h, const long* idx, auto&&, auto&& rhs){ for(long p = 0 ; p < h.nbParticles ; ++p) r.push_back({idx[p], rhs[0][p]}); });
+    std::sort(r.begin(), r.end());
+    out += " || R";
+    for(auto& kv : r) out += " " + std::to_string(kv.first) + "=" + std::to_string(kv.second);
+    out += " || " + interval;
+    trace_sink() = nullptr;
+    return out;
+}
 #endif // FAMILY_PER
 #ifdef FAMILY_TSM
 // ---- target/source variant ----
-template <class Groups, class PGroups>
-std::string dump_parts(long H, Groups&& cellGroupsAt, PGroups&& pgroups){
-    std::string s = "H=" + std::to_string(H);
-    for(long l = 0 ; l < H ; ++l){
-        s += " | L" + std::to_string(l) + ":";
-        for(const auto& g : cellGroupsAt(l)){
-            s += " [" + std::to_string(g.getStartingSpacialIndex()) + " " + std::to_string(g.getEndingSpacialIndex()) + " " + std::to_string(g.getNbCells()) + ":";
-            for(long k = 0 ; k < g.getNbCells() ; ++k) s += " " + std::to_string(g.getCellSpacialIndex(k));
-            s += "]";
-        }
-    }
-    s += " | P:";
-    for(const auto& g : pgroups){
-        s += " [" + std::to_string(g.getStartingSpacialIndex()) + " " + std::to_string(g.getEndingSpacialIndex()) + " " + std::to_string(g.getNbLeaves()) + " " + std::to_string(g.getNbParticles()) + ":";
-        for(long k = 0 ; k < g.getNbLeaves() ; ++k){
-            const auto& h = g.getLeafSymbData(k);
-            s += " (" + std::to_string(h.spaceIndex) + " " + std::to_string(h.nbParticles) + " " + std::to_string(h.offSet) + ":";
-            std::vector<long> parts(g.getParticleIndexes(k), g.getParticleIndexes(k) + h.nbParticles);
-            std::sort(parts.begin(), parts.end());
-            for(long p : parts) s += " " + std::to_string(p);
-            s += ")";
-        }
-        s += "]";
-    }
-    return s;
-}
-
 //   exectsm d per H B mode stop nf f_1..f_nf Ns <Ns*d nums> Nt <Nt*d nums>
 // output: dumpSource || dumpTarget || trace || R (target results) || C (source multipoles / target locals)
 template <long D, bool Per>
@@ -226,6 +249,14 @@ std::string run_exec_tsm(const Cmd& c){
 int main(int argc, char** argv){
     return run_commands(argc, argv, [](const Cmd& c) -> std::string {
 #ifdef FAMILY_PER
+        if(c.tok[0] == "execpertsm"){
+            switch(c.L(1)){
+            case 1: return run_exec_per_tsm<1>(c);
+            case 2: return run_exec_per_tsm<2>(c);
+            case 3: return run_exec_per_tsm<3>(c);
+            }
+            return "?dim";
+        }
         if(c.tok[0] == "execper"){
             switch(c.L(1)){
             case 1: return run_exec_per<1>(c);
